@@ -13,8 +13,10 @@ package main
 import (
 	"encoding/json"
 	"fmt"
+	"sort"
 	"strings"
 	"sync"
+	"time"
 
 	"github.com/yuin/goldmark"
 )
@@ -194,6 +196,50 @@ func runC09(c *Ctx) {
 	for i := 0; i < c.Pick(40000, 600000); i++ {
 		add(c09Case{Kind: "concat", A: rawDoc(pool[rng.Intn(len(pool))]), B: rawDoc(pool[rng.Intn(len(pool))])}, i%len(cfgs))
 	}
+	// pairs of tables (Table.tla candidates, by cell kind): per-document bookkeeping of an extension
+	// (escaped pipes, alignments) must not survive into the next table
+	tdocs, tkinds := tableDocs(c)
+	byKind := map[string][]string{}
+	for i, d := range tdocs {
+		if !strings.ContainsAny(d, "[\r") {
+			byKind[tkinds[i]] = append(byKind[tkinds[i]], d)
+		}
+	}
+	var tsel []string
+	for _, k := range sortedKeys(byKind) {
+		ds := byKind[k]
+		for n := 0; n < c.Pick(14, 60) && len(ds) > 0; n++ {
+			tsel = append(tsel, ds[rng.Intn(len(ds))])
+		}
+	}
+	tsel = append(tsel, "| `a` \\| b |\n|---|\n| c |\n", "| a ` b \\| c |\n|---|\n", "| `a\\|b` | c |\n|---|\n", "| h |\n|---|\n| `p\\|q` |\n", "| `a\\|b` |\n|---|---|\n")
+	ev.Set("table_documents_paired", len(tsel))
+	for i, a := range tsel {
+		for j, b := range tsel {
+			add(c09Case{Kind: "concat", A: rawDoc(a), B: rawDoc(b)}, 1+2*((i+j)%2))
+		}
+	}
+	// first documents from BlockSem.tla: for these TLC has established at model level that a
+	// document whose blocks are closed renders independently of what follows (invariant ConcatLaw)
+	for bi, b := range []bsConfig{{"small", 3, true, 0}, {"html", 2, true, 0}} {
+		n := 0
+		r := RunTLC(TLCOpts{Module: "BlockSem", Cfg: "gen.cfg", CfgText: bsCfg(b.alpha, b.lines, false, true), Workers: 8, Timeout: 60 * time.Minute, OnJSON: func(raw []byte) {
+			var d struct {
+				Src string `json:"src"`
+			}
+			if json.Unmarshal(raw, &d) == nil && d.Src != "" {
+				n++
+				for j, second := range []string{"a\n", "# a\n", "- x\n\n- y\n", "    c\n"} {
+					if (n+j)%2 == 0 || c.Thorough() {
+						add(c09Case{Kind: "concat", A: rawDoc(d.Src), B: rawDoc(second)}, (n+j+bi)%len(cfgs))
+					}
+				}
+			}
+		}})
+		r.MustOK("BlockSem " + b.alpha + " (ConcatLaw at model level)")
+		ev.TLC(fmt.Sprintf("BlockSem alphabet %s, up to %d lines: ConcatLaw holds of the reference semantics; documents replayed as first documents", b.alpha, b.lines), r)
+		ev.Add("blocksem_first_documents", int64(n))
+	}
 	for i, a := range scaledA {
 		for j, b := range scaledB {
 			add(c09Case{Kind: "concat", A: rawDoc(a), B: rawDoc(b)}, (i+j)%len(cfgs))
@@ -269,4 +315,13 @@ func runC09(c *Ctx) {
 	for i := len(shorts) * len(shorts); i < len(jobs); i += (len(jobs)-len(shorts)*len(shorts))/5 + 1 {
 		c.Sample("law-instance", 6, jobs[i])
 	}
+}
+
+func sortedKeys(m map[string][]string) []string {
+	var ks []string
+	for k := range m {
+		ks = append(ks, k)
+	}
+	sort.Strings(ks)
+	return ks
 }
